@@ -61,8 +61,13 @@ def _check(ctx, case, continuum):
     try:
         alignment, solvers = ac.call_alignment(continuum, dissim, case["backend"], "best", spy)
     except Exception as e:
+        if case["backend"] == "allfail":
+            ctx.observe("no_solver_usable", "refused:" + type(e).__name__)     # without any solver a refusal is the right answer
+            return
         ctx.fail_exc(f"raises:{type(e).__name__}", e, monitor="M-OPT")
         return
+    if case["backend"] == "allfail":
+        ctx.observe("no_solver_usable", "an alignment was returned (judged like any other)")
     ctx.observe("solver", ",".join(solvers))
     nunits = cases.spec_num_units(cspec)
     want = case.get("want") or ("both" if (nunits <= 14 and ctx.rng.random() < 0.3) else "auto")
@@ -149,6 +154,8 @@ def run(ctx):
         if ctx.out_of_time():
             break
         case = ac.gen_oracle_case(ctx, dspecs)
+        if ctx.rng.random() < 0.05:
+            case["backend"] = "allfail"      # every solver call raises SolverError: a refusal is fine, a wrong alignment is not
         if ctx.rng.random() < 0.1 and cases.spec_num_units(case["continuum"]) <= 12:
             labels = cases.dissim_labels(case["dissim"]) or cases.LABELS_SMALL
             case["session"] = ac.gen_edit_ops(ctx.rng, case["continuum"], labels, ctx.rng.randint(2, 4))
